@@ -140,6 +140,10 @@ class SubClient:
         return out
 
 
+PP_FILES = {
+    "pp/ppmod.f90": "#define PP_ON 1\nmodule ppmod\n  implicit none\n#ifdef PP_ON\n  integer :: pp_on_var\n#else\n  integer :: pp_off_var\n#endif\ncontains\n#if defined(PP_ON) && PP_ON == 1\n  subroutine pp_sub_on()\n    pp_on_var = 1\n  end subroutine pp_sub_on\n#else\n  subroutine pp_sub_off()\n  end subroutine pp_sub_off\n#endif\nend module ppmod\n",
+}
+
 EXTRA_FILES = {
     "incs/inc_decl.f90": "      integer :: inc_var_a\n      real :: inc_var_b\n",
     "incs/incuser1.f90": "module iu1\n  implicit none\n  include 'inc_decl.f90'\ncontains\n  subroutine iu1_s()\n    inc_var_a = 1\n  end subroutine iu1_s\nend module iu1\n",
